@@ -45,6 +45,7 @@ type Verifier struct {
 	preludeSeen     map[string]bool
 	errors          []string
 	stdlibDir       string
+	splitValue      string
 }
 
 func (V *Verifier) globalID(name string) int {
@@ -183,7 +184,45 @@ func (V *Verifier) newFuncCtx(fi *FuncInfo, fct *FuncContract) *FuncCtx {
 }
 
 func (V *Verifier) verifyFunc(fi *FuncInfo, fct *FuncContract) (res *FuncResult) {
-	return V.verifyFuncMode(fi, fct, 0)
+	if fct.Split == nil {
+		return V.verifyFuncMode(fi, fct, 0)
+	}
+	// case split: the function is verified once per value of the split expression (complete when the
+	// precondition confines the expression to these values, which is itself an obligation)
+	all := &FuncResult{Name: fi.Pkg.Name + "." + fi.Key}
+	am := map[string]bool{}
+	for _, v := range fct.Split.Values {
+		V.splitValue = v
+		r := V.verifyFuncMode(fi, fct, 0)
+		V.splitValue = ""
+		if r.Err != "" {
+			all.Err = r.Err
+			return all
+		}
+		for _, ob := range r.Obls {
+			ob.Name += "[" + fct.Split.Src + "=" + v + "]"
+		}
+		all.Obls = append(all.Obls, r.Obls...)
+		all.Paths += r.Paths
+		for _, a := range r.Assumptions {
+			am[a] = true
+		}
+		all.Inlined, all.Callees, all.WeakFrames = r.Inlined, r.Callees, r.WeakFrames
+	}
+	// completeness of the split: outside the listed values the precondition is unsatisfiable
+	V.splitValue = "*"
+	r := V.verifyFuncMode(fi, fct, 0)
+	V.splitValue = ""
+	for _, ob := range r.Obls {
+		if ob.Kind == "split-complete" {
+			all.Obls = append(all.Obls, ob)
+		}
+	}
+	for a := range am {
+		all.Assumptions = append(all.Assumptions, a)
+	}
+	sort.Strings(all.Assumptions)
+	return all
 }
 
 // verifyFuncMode: ceUnroll > 0 selects counterexample mode (loops unrolled ceUnroll times, inputs small, no invariants used).
@@ -235,6 +274,21 @@ func (V *Verifier) verifyFuncMode(fi *FuncInfo, fct *FuncContract, ceUnroll int)
 			}
 		}
 	}
+	// typing facts for the fields of structs that parameters point to (one level)
+	for _, v := range st.vars {
+		if v.K == KInt && v.T != nil {
+			if s, structT := structOf(v.T); s != nil {
+				if _, isPtr := v.T.Underlying().(*types.Pointer); isPtr {
+					for i := 0; i < s.NumFields(); i++ {
+						fv := st.loadField(nil, v.S, structT, s.Field(i).Name())
+						for _, f := range st.typeFacts(fv) {
+							st.facts = st.facts.push(sImp(sNot(sEq(v.S, "0")), f))
+						}
+					}
+				}
+			}
+		}
+	}
 	fc.results = resultObjs(info, fi.Decl.Type)
 	for _, r := range fc.results {
 		st.vars[r] = st.zeroVal(r.Type())
@@ -265,6 +319,20 @@ func (V *Verifier) verifyFuncMode(fi *FuncInfo, fct *FuncContract, ceUnroll int)
 	}
 	for _, u := range fct.Uses {
 		st.assumeLemma(u, bodyPos)
+	}
+	if fct.Split != nil && V.splitValue != "" {
+		env := fc.newSpecEnv(st, nil, nil, bodyPos, fc.Name+"/split")
+		e := env.eval(fct.Split.Expr).S
+		if V.splitValue == "*" {
+			var ds []string
+			for _, v := range fct.Split.Values {
+				ds = append(ds, sEq(e, v))
+			}
+			st.oblige("split-complete", fct.Split.Src, sOr(ds...), token.NoPos)
+			res.Obls = fc.obls
+			return res
+		}
+		st.facts = st.facts.push(sEq(e, V.splitValue))
 	}
 	// vacuity cover: the precondition must be satisfiable
 	cover := &Obligation{Name: fc.Name + "/pre-sat", Kind: "pre-sat", Func: fc.Name, Decls: append([]string(nil), fc.decls...), Facts: st.facts.slice(), Goal: "false", Expect: "sat"}
